@@ -98,7 +98,7 @@ theorem idx_facts (cfg : Cfg) : ∀ c1, c1 < 9 → ∀ c2, c2 < 9 →
   cases cfg <;> decide
 
 theorem wfRes_iff (vk : Rk × Nat) : wfRes vk = true ↔
-    vk.1.cat < 9 ∧ vk.1.r1 < 13 ∧ vk.1.r2 < 13 ∧ vk.2 < 8192 ∧ popW 13 vk.2 = RP.Gen.nKickers.getD vk.1.cat 0 ∧
+    vk.1.cat < 9 ∧ vk.1.r1 < 13 ∧ vk.1.r2 < 13 ∧ vk.2 < 8192 ∧ popW 13 vk.2 = nKick vk.1.cat ∧
     (vk.1.cat = cTwoPair ∨ vk.1.cat = cFullHouse ∨ vk.1.r2 = 0) := by
   simp [wfRes, and_assoc, or_assoc]
 
@@ -116,15 +116,15 @@ theorem specOf_bounds (cfg : Cfg) (c r1 r2 k : Nat) (h : wfRes (⟨c, r1, r2⟩,
   have b4 := (kd_bounds k 13 (by decide) 4).1
   simp only [Nat.reducePow] at b1 b2 b3 b4
   rcases nine_cases hc with e | e | e | e | e | e | e | e | e <;> subst e <;>
-    simp [specOf, cHighCard, cOnePair, cTwoPair, cThreeOAK, cFullHouse, cFourOAK] <;> omega
+    simp [specOf, cHighCard, cOnePair, cTwoPair, cThreeOAK, cFullHouse, cFlush, cFourOAK] <;> omega
 
 end RP.C01
 
 namespace RP.C01
 open RP.Bits RP.Eval RP.Spec.Poker
 
-theorem nk_table : ∀ c, c < 9 → RP.Gen.nKickers.getD c 0 =
-    (if c = 0 then 4 else if c = 1 then 3 else if c = 2 then 1 else if c = 3 then 2 else if c = 7 then 1 else 0) := by
+theorem nk_table : ∀ c, c < 9 → nKick c =
+    (if c = 0 then 4 else if c = 1 then 3 else if c = 2 then 1 else if c = 3 then 2 else if c = 6 then 4 else if c = 7 then 1 else 0) := by
   decide
 
 theorem variantIdx_lt (cfg : Cfg) : ∀ c, c < 9 → variantIdx cfg c < 16 := by
@@ -159,7 +159,7 @@ theorem key_lt_imp (cfg : Cfg) (a b : Rk × Nat) (ha : wfRes a = true) (hb : wfR
     clear hp
     rcases nine_cases hc with e | e | e | e | e | e | e | e | e <;> subst e <;>
       simp only [cTwoPair, cFullHouse, Nat.reduceEqDiff, false_or, if_true, if_false, Nat.reducePow] at hr hr' mono bA bB <;>
-      simp only [specOf, cHighCard, cOnePair, cTwoPair, cThreeOAK, cFullHouse, cFourOAK, Nat.reduceEqDiff, if_true, if_false, Nat.reducePow] <;>
+      simp only [specOf, cHighCard, cOnePair, cTwoPair, cThreeOAK, cFullHouse, cFlush, cFourOAK, Nat.reduceEqDiff, if_true, if_false, Nat.reducePow, or_self, or_false, or_true] <;>
       (rcases L with L | ⟨L1, L | ⟨L2, L3⟩⟩
        · omega
        · omega
